@@ -257,6 +257,61 @@ var ruleQuotedLabels = &core.Rule{ID: "R12.11", Min: 4,
 		if nx == 0 {
 			s.Und("XML pseudo-attribute reader", c.Pos(cm.xml.Pos()), "no function below the XML sniffer that searches for `encoding` and tests the first byte of the value for a quote")
 		}
+		// the declaration is looked for behind leading whitespace: the XML detector accepts documents that start with
+		// blanks or line ends, and the decoder only reports a declaration as the first token
+		for _, f := range belowSniffer(cm.xml) {
+			for _, ci := range core.Calls(f) {
+				if !core.CalleeIs(ci.Common(), "encoding/xml", "NewDecoder") {
+					continue
+				}
+				key := core.FName(f) + ": decoder input has leading whitespace removed"
+				src := ci.Common().Args[0]
+				for d := 0; d < 4; d++ {
+					switch x := src.(type) {
+					case *ssa.MakeInterface:
+						src = x.X
+						continue
+					case *ssa.Call:
+						if core.CalleeIs(&x.Call, "bytes", "NewReader") || core.CalleeIs(&x.Call, "bytes", "NewBuffer") {
+							src = x.Call.Args[0]
+							continue
+						}
+					}
+					break
+				}
+				switch x := src.(type) {
+				case *ssa.Parameter:
+					s.Bad(key, c.Pos(ci.Pos()), "the XML decoder is given the input as it is: a document that begins with whitespace has character data as its first token, the declaration behind it is not seen and its encoding is lost")
+				case *ssa.Call:
+					g := x.Call.StaticCallee()
+					okTrim := false
+					if g != nil && g.Pkg != nil && g.Pkg.Pkg.Path() == "bytes" && (g.Name() == "TrimLeft" || g.Name() == "TrimSpace" || g.Name() == "TrimLeftFunc") {
+						okTrim = true
+					}
+					if g != nil && core.InMod(g) && len(g.Params) == 1 && core.IsByteSlice(g.Params[0].Type()) && g.Signature.Results().Len() == 1 && core.IsByteSlice(g.Signature.Results().At(0).Type()) {
+						// a module helper from bytes to bytes all of whose results are in[i:] (or the input itself)
+						okTrim = true
+						for _, r := range core.Returns(g) {
+							rv := r.Results[0]
+							if sl, ok := rv.(*ssa.Slice); ok && sl.X == ssa.Value(g.Params[0]) && sl.High == nil {
+								continue
+							}
+							if rv == ssa.Value(g.Params[0]) {
+								continue
+							}
+							okTrim = false
+						}
+					}
+					if okTrim {
+						s.OK(key, c.Pos(ci.Pos()), "input passed through "+g.Name())
+					} else {
+						s.Und(key, c.Pos(ci.Pos()), "the decoder's input comes from a call that is not recognised as a leading-whitespace trim")
+					}
+				default:
+					s.Und(key, c.Pos(ci.Pos()), "the origin of the decoder's input is not recognised")
+				}
+			}
+		}
 		for _, f := range belowSniffer(cm.html) {
 			if f == cm.plain || f == cm.bomFn || !searchesFor(f, "charset") {
 				continue
